@@ -303,3 +303,193 @@ M('C10', 'sol-layout-fields-reordered', ABI, '        bytes sourceAddress;\n    
 M('C10', 'sol-tags-reordered', ABI, '        SendToHub,\n        ReceiveFromHub\n    }', '        ReceiveFromHub,\n        SendToHub\n    }', 'C10.R4')
 M('C10', 'decode-decimals-plus-one', ABI, '                    decimals: decoded.decimals,', '                    decimals: decoded.decimals.wrapping_add(1),', 'C10.R3')
 M('C10', 'encode-token-id-reversed', ABI, '                tokenId: FixedBytes::<32>::new(token_id.into()),\n                sourceAddress', '                tokenId: { let mut b: [u8; 32] = token_id.into(); b.reverse(); FixedBytes::<32>::new(b) },\n                sourceAddress', 'C10.R3')
+
+# ---------------- behaviour-preserving refactors (all checks of the listed property must stay silent) ----------------
+M('C02', 'refactor-approve-for_each', GW, '''        for message in messages.into_iter() {
+            let key = MessageApprovalKey {
+                source_chain: message.source_chain.clone(),
+                message_id: message.message_id.clone(),
+            };
+
+            // Prevent replay if message is already approved/executed
+            let message_approval = Self::message_approval_by_key(&env, key.clone());
+            if message_approval != MessageApprovalValue::NotApproved {
+                continue;
+            }
+
+            env.storage().persistent().set(
+                &DataKey::MessageApproval(key),
+                &Self::message_approval_hash(&env, message.clone()),
+            );
+
+            event::approve_message(&env, message);
+        }
+''', '''        messages.into_iter().for_each(|message| {
+            let key = MessageApprovalKey {
+                source_chain: message.source_chain.clone(),
+                message_id: message.message_id.clone(),
+            };
+
+            // Prevent replay if message is already approved/executed
+            let message_approval = Self::message_approval_by_key(&env, key.clone());
+            if message_approval != MessageApprovalValue::NotApproved {
+                return;
+            }
+
+            env.storage().persistent().set(
+                &DataKey::MessageApproval(key),
+                &Self::message_approval_hash(&env, message.clone()),
+            );
+
+            event::approve_message(&env, message);
+        });
+''', equiv=True)
+MUTANTS.append(dict(MUTANTS[-1], prop='C01', id='refactor-approve-for_each-c01'))
+M('C02', 'refactor-validate-helper', GW, """            env.storage().persistent().set(
+                &DataKey::MessageApproval(key),
+                &MessageApprovalValue::Executed,
+            );
+
+            event::execute_message(&env, message);
+
+            return true;
+        }
+
+        false
+    }
+}""", """            mark_executed(&env, key, message);
+
+            return true;
+        }
+
+        false
+    }
+}
+
+fn mark_executed(env: &Env, key: MessageApprovalKey, message: Message) {
+    env.storage().persistent().set(
+        &DataKey::MessageApproval(key),
+        &MessageApprovalValue::Executed,
+    );
+
+    event::execute_message(env, message);
+}""", equiv=True)
+MUTANTS.append(dict(MUTANTS[-1], prop='C07', id='refactor-validate-helper-c07'))
+M('C12', 'refactor-debit-checked_sub', TOK, '        Self::write_balance(env, addr, balance - amount);', '        Self::write_balance(env, addr, balance.checked_sub(amount).expect("underflow"));', equiv=True)
+M('C01', 'refactor-sigloop-while-let', AUTH, """    for ProofSigner {
+        signer: WeightedSigner {
+            signer: public_key,
+            weight,
+        },
+        signature,
+    } in proof.signers.iter()
+    {""", """    let mut it = proof.signers.iter();
+    while let Some(ProofSigner {
+        signer: WeightedSigner {
+            signer: public_key,
+            weight,
+        },
+        signature,
+    }) = it.next()
+    {""", equiv=True)
+M('C06', 'refactor-trusted-chain-if-return', ITS, """        ensure!(
+            !env.storage().persistent().has(&key),
+            ContractError::TrustedChainAlreadySet
+        );""", """        if env.storage().persistent().has(&key) {
+            return Err(ContractError::TrustedChainAlreadySet);
+        }""", equiv=True)
+M('C17', 'refactor-operators-auth-after-key', OPS, """        operator.require_auth();
+
+        let key = DataKey::Operators(operator);
+""", """        let key = DataKey::Operators(operator.clone());
+        operator.require_auth();
+""", equiv=True)
+M('C15', 'refactor-upgrader-let-version', UPG, """        ensure!(
+            contract_client.version() != new_version,
+            ContractError::SameVersion
+        );""", """        let current_version = contract_client.version();
+        ensure!(current_version != new_version, ContractError::SameVersion);""", equiv=True)
+M('C14', 'refactor-gas-amount-alias', GAS, """        ensure!(token.amount > 0, ContractError::InvalidAmount);
+
+        token::Client::new(&env, &token.address).transfer(
+            &spender,
+            &env.current_contract_address(),
+            &token.amount,
+        );
+
+        event::gas_added""", """        let amount = token.amount;
+        ensure!(amount > 0, ContractError::InvalidAmount);
+
+        let client = token::Client::new(&env, &token.address);
+        client.transfer(&spender, &env.current_contract_address(), &amount);
+
+        event::gas_added""", equiv=True)
+M('C03', 'refactor-rotate-hash-first', GW, """        if bypass_rotation_delay {
+            Self::operator(&env).require_auth();
+        }
+
+        let data_hash: BytesN<32> = signers.signers_rotation_hash(&env);
+""", """        let data_hash: BytesN<32> = signers.signers_rotation_hash(&env);
+
+        if bypass_rotation_delay {
+            Self::operator(&env).require_auth();
+        }
+""", equiv=True)
+MUTANTS.append(dict(MUTANTS[-1], prop='C09', id='refactor-rotate-hash-first-c09'))
+MUTANTS.append(dict(MUTANTS[-1], prop='C06', id='refactor-rotate-hash-first-c06'))
+M('C05', 'refactor-its-transfer-auth-first', ITS, """        ensure!(amount > 0, ContractError::InvalidAmount);
+
+        caller.require_auth();
+
+        token_handler::take_token(""", """        caller.require_auth();
+
+        ensure!(amount > 0, ContractError::InvalidAmount);
+
+        token_handler::take_token(""", equiv=True)
+M('C04', 'refactor-execute-match-result', ITS, """        Self::execute_message(&env, source_chain, message_id, source_address, payload)
+            .unwrap_or_else(|err| panic_with_error!(env, err));""", """        match Self::execute_message(&env, source_chain, message_id, source_address, payload) {
+            Ok(()) => {}
+            Err(err) => panic_with_error!(env, err),
+        }""", equiv=True)
+MUTANTS.append(dict(MUTANTS[-1], prop='C16', id='refactor-execute-match-result-c16'))
+M('C18', 'refactor-remote-metadata-locals', ITS, """        let token_metadata = TokenMetadata {
+            name: token.name(),
+            decimal: token.decimals(),
+            symbol: token.symbol(),
+        };
+""", """        let name = token.name();
+        let symbol = token.symbol();
+        let decimal = token.decimals();
+        let token_metadata = TokenMetadata {
+            name,
+            decimal,
+            symbol,
+        };
+""", equiv=True)
+M('C11', 'refactor-register-canonical-helper', ITS, """        ensure!(
+            !env.storage()
+                .persistent()
+                .has(&DataKey::TokenIdConfigKey(token_id.clone())),
+            ContractError::TokenAlreadyRegistered
+        );""", """        ensure!(
+            Self::token_id_config(env, token_id.clone()).is_err(),
+            ContractError::TokenAlreadyRegistered
+        );""", equiv=True)
+M('C13', 'refactor-call-contract-hash-local', GW, """        let payload_hash = env.crypto().keccak256(&payload).into();
+""", """        let digest = env.crypto().keccak256(&payload);
+        let payload_hash: BytesN<32> = digest.into();
+""", equiv=True)
+M('C10', 'refactor-to_i128-if-return', ABI, """    ensure!(
+        i128::from_le_bytes(bytes_to_remove) == 0,
+        ContractError::InvalidAmount
+    );""", """    if i128::from_le_bytes(bytes_to_remove) != 0 {
+        return Err(ContractError::InvalidAmount);
+    }""", equiv=True)
+M('C08', 'refactor-retention-locals', AUTH, """    ensure!(
+        current_epoch - signers_epoch <= previous_signers_retention,
+        ContractError::OutdatedSigners
+    );""", """    let age = current_epoch - signers_epoch;
+    if age > previous_signers_retention {
+        return Err(ContractError::OutdatedSigners);
+    }""", equiv=True)
+MUTANTS.append(dict(MUTANTS[-1], prop='C01', id='refactor-retention-locals-c01'))
